@@ -812,7 +812,7 @@ func (e Function) String() string {
 	} else {
 		args = listQueryExpressions(e.Args)
 	}
-	return strings.ToUpper(e.Name) + "(" + args + ")"
+	return upperFunctionName(e.Name) + "(" + args + ")"
 }
 
 type AggregateFunction struct {
@@ -829,7 +829,7 @@ func (e AggregateFunction) String() string {
 	}
 	s = append(s, listQueryExpressions(e.Args))
 
-	return strings.ToUpper(e.Name) + "(" + joinWithSpace(s) + ")"
+	return upperFunctionName(e.Name) + "(" + joinWithSpace(s) + ")"
 }
 
 func (e AggregateFunction) IsDistinct() bool {
@@ -1070,7 +1070,7 @@ func (e AnalyticFunction) String() string {
 	}
 
 	s := []string{
-		strings.ToUpper(e.Name) + "(" + joinWithSpace(args) + ")",
+		upperFunctionName(e.Name) + "(" + joinWithSpace(args) + ")",
 		keyword(OVER),
 		"(" + e.AnalyticClause.String() + ")",
 	}
@@ -1612,6 +1612,22 @@ type ExternalCommand struct {
 
 func putParentheses(s string) string {
 	return "(" + s + ")"
+}
+
+// upperFunctionName upper-cases the ASCII letters of a function name and
+// leaves every other character as it was written. The scanner decides whether
+// a name is a built-in aggregate, analytic or list function with
+// strings.EqualFold; strings.ToUpper maps characters that EqualFold keeps
+// apart (the dotless i to "I"), so "mın(1)" was printed as the aggregate
+// "MIN(1)".
+func upperFunctionName(name string) string {
+	b := []byte(name)
+	for i, c := range b {
+		if 'a' <= c && c <= 'z' {
+			b[i] = c - ('a' - 'A')
+		}
+	}
+	return string(b)
 }
 
 func joinWithSpace(s []string) string {
